@@ -8,3 +8,4 @@ package types
 // GetAllValidators reads the staking store and returns the validators; it writes nothing.
 //@ func (sk StakingKeeper).GetAllValidators(ctx) (validators, err)
 //@ trusted
+//@ ensures [validator_tokens_are_a_sane_amount] err == nil ==> forall j in [0, len(validators)) :: validators[j].Tokens >= 0 && validators[j].Tokens < 9223372036854775808000000
